@@ -142,6 +142,8 @@ class SimLocale:
             return self.current[category]
         if not isinstance(value, str):
             raise TypeError('setlocale() argument 2 must be str or None')
+        if '\x00' in value:
+            raise ValueError('embedded null character')        # as the C-level setlocale wrapper does
         self.set_calls += 1
         if self.log is not None:
             self.log(('setlocale', LC_NAMES.get(category, 'LC_ALL'), value))
